@@ -75,7 +75,8 @@ Proof.
   - (* told ok: dead only through an earlier rollback_send *)
     apply (o_dead _ _ O). destruct H as [H | H]; [discriminate H | right; auto].
   - (* told ok: the primary is committed *)
-    match goal with Hx : negb (cn _ FPcOk =? 0) || _ || _ = true |- _ => rename Hx into CR end.
+    match goal with Hx : negb (cn _ FPcOk =? 0) || _ || _ || _ = true |- _ => rename Hx into CR end.
+    apply orb_true_iff in CR. destruct CR as [CR | CD]; [| exfalso; b2p; unfold hasm, F in Hm; congruence].
     apply orb_true_iff in CR. destruct CR as [CR | CR]; [apply orb_true_iff in CR; destruct CR as [CR | CR] |]; b2p.
     + exists (cn (getc s T) FPcOk). apply (l_pcok _ _ L); auto.
     + destruct (o_1pcts _ _ O CR) as [r [ks [m E]]]. exists (cn (getc s T) F1pcTs). apply (o_entry _ _ O _ _ _ _ E).
